@@ -246,7 +246,7 @@ def source_states(builder, d, valid_only=False):
 
 
 def units(tier, seed):
-    us = []
+    us = [("arches", None)]
     for b in ("rpms", "modules", "extra"):
         d = depth(tier) if b != "extra" else depth(tier) + 1
         hists = source_states(b, d)
@@ -260,6 +260,22 @@ def units(tier, seed):
 
 def run_unit(unit, acc):
     builder, hists = unit
+    if builder == "arches":
+        from mc.models import ids
+        for arch in ids.BINARY_ARCHES_DOC + ["armv6hlarmv6l", "x86", "x86_64 "]:
+            for b, op in (("rpms", ["rpms", "Server", arch, "bash-0:4.3-1.fc23.x86_64", "p/bash.rpm", None, "binary", BASH_SRC]),
+                          ("modules", ["modules", "Server", arch, "perl:5.26", "tag", "p/perl.yaml", "binary", []]),
+                          ("extra", ["extra", "Server", arch, "Server/GPL", 1, {"sha256": "a" * 64}])):
+                st, problems, reasons = run_history(b, [op])
+                acc.ev()
+                acc.trans()
+                acc.trace()
+                if problems:
+                    acc.violation("%s:arch" % b, {"kind": "hist", "builder": b, "hist": [op]}, {"problems": problems},
+                                  "%s add under arch %r: %s" % (b, arch, problems[0][:300]))
+                else:
+                    acc.outcome("%s:%s" % (b, reasons[0]) if arch in ids.BINARY_ARCHES_DOC else "%s:refused:unknown-arch" % b)
+        return
     ops = menu(builder)
     for hist in hists:
         src, problems, _ = run_history(builder, hist)
